@@ -54,6 +54,7 @@ type run struct {
 	refused []bool // the last Leave of the channel was answered with an error
 	everJoined map[int]bool
 	feedCh  chan []byte
+	wrote   chan struct{} // signalled whenever the session has written something
 	serveRet atomic.Value // string: how Serve ended (set before the event is emitted)
 	lastItem *sentItem    // the item of the last presence fed (what the callback must report)
 	lastHeld string       // last `=` token (addresses held, as Me() reports them)
@@ -85,6 +86,13 @@ func newRun(r *common.Run, addrs []int, cf nsConf) (*run, error) {
 	}
 	n := len(addrs)
 	x := &run{r: r, ctl: ctl, rs: rs, addrs: addrs, conf: cf, ns: cf.ns, managed: map[int]int{}, everJoined: map[int]bool{}, feedCh: make(chan []byte, 1024)}
+	x.wrote = make(chan struct{}, 1)
+	rs.Out.OnWrite = func([]byte) {
+		select {
+		case x.wrote <- struct{}{}:
+		default:
+		}
+	}
 	go func() {
 		// one writer: peer stanzas reach the session in the order they were fed
 		for b := range x.feedCh {
@@ -161,7 +169,7 @@ func (x *run) awaitPresence(to string, unavailable bool) string {
 				}
 			}
 		}
-		time.Sleep(50 * time.Microsecond)
+		x.pause()
 	}
 	x.problem("WATCHDOG waiting for the presence to %s on the wire", to)
 	return ""
@@ -171,6 +179,14 @@ func (x *run) awaitPresence(to string, unavailable bool) string {
 func (x *run) sync() {
 	if !x.syncQ() {
 		x.r.Fail("serve-continues", "serve-stalled", x.lines(), "the serve loop stopped processing stanzas"+x.served())
+	}
+}
+
+// pause waits for the next write of the session (or a short while: Serve may have returned).
+func (x *run) pause() {
+	select {
+	case <-x.wrote:
+	case <-time.After(2 * time.Millisecond):
 	}
 }
 
@@ -199,7 +215,7 @@ func (x *run) syncQ() bool {
 		if x.serveRet.Load() != nil {
 			break // Serve has returned: nothing will answer
 		}
-		time.Sleep(50 * time.Microsecond)
+		x.pause()
 	}
 	x.problem("WATCHDOG: serve loop does not answer (stalled or dead)%s", x.served())
 	return false
